@@ -322,6 +322,50 @@ def check(fx, rep, tier):
             names = [F.callee(c) or "" for c, _ in F.calls(b["hir"]["value"])]
             rep.oblige(any(JUMPDEST_TY in n and "downcast_ref" in n for n in names), "R08.4", "fork_to-checks-jumpdest", F.loc(b["span"]), "fork_to no longer requires the fork target to be a JUMPDEST")
 
+    # the kill request concerns the thread that was current when it was made: it is cleared whenever a thread is retired, on
+    # every path (a reset that sits in the right operand of `||`, or under another condition, is skipped when the thread is being
+    # retired for another reason, and the request then kills the next thread in the queue after one instruction)
+    adv = vm.advance
+    KILLED = "current_thread_killed"
+    rootA = adv["hir"]["value"]
+    pops = [(c, cps) for c, cps in F.calls(rootA) if c.get("k") == "MethodCall" and c["method"] in ("pop_front", "pop_back", "pop")]
+    resets = []
+    for x, xps in F.walk(rootA):
+        if x.get("k") == "Assign" and x["l"].get("k") == "Field" and x["l"].get("field") == KILLED and T.term(x["r"], T.Env()) in (("lit", False), ("lit", "false")):
+            resets.append((x, xps))
+        if x.get("k") in ("Call", "MethodCall"):
+            nm = F.strip_generics(F.callee_def(x) or "")
+            direct = nm in ("std::mem::take", "core::mem::take", "std::mem::replace", "core::mem::replace") and any(m.get("k") == "Field" and m.get("field") == KILLED for m, _ in F.walk(x))
+            via = False
+            for t in cg.resolve_local(x):
+                tb = fx.body(t)
+                if tb and tb.get("hir") and tb.get("impl_self") == adv.get("impl_self"):
+                    for y, _ in F.walk(tb["hir"]["value"]):
+                        if y.get("k") in ("Call", "MethodCall") and F.strip_generics(F.callee_def(y) or "") in ("std::mem::take", "core::mem::take", "std::mem::replace", "core::mem::replace") and any(m.get("k") == "Field" and m.get("field") == KILLED for m, _ in F.walk(y)):
+                            via = True
+                        if y.get("k") == "Assign" and y["l"].get("k") == "Field" and y["l"].get("field") == KILLED and T.term(y["r"], T.Env()) in (("lit", False), ("lit", "false")):
+                            via = True
+            if direct or via:
+                resets.append((x, xps))
+    if rep.anchor("R08.3", bool(pops), "the place where the advance function retires a thread (pops it from the queue)"):
+        pop, pps = pops[0]
+        ok_reset = False
+        for x, xps in resets:
+            # short-circuit operand or nested condition that is not also a condition of the pop?
+            in_short_circuit = any(a.get("k") == "Binary" and a["op"] in ("Or", "And") and key == "r" for a, key in xps)
+            pop_conds = {id(a) for a, key in pps if a.get("k") in ("If", "Match") and key in ("then", "else", "arms")}
+            extra_conds = [a for a, key in xps if a.get("k") in ("If", "Match") and key in ("then", "else", "arms") and id(a) not in pop_conds and not a.get("exp")]
+            if not in_short_circuit and not extra_conds:
+                ok_reset = True
+        rep.oblige(
+            ok_reset,
+            "R08.3",
+            "kill-request-cleared-on-retire",
+            F.loc(pop["span"]),
+            "the request to kill the current thread is not cleared on every path that retires a thread (the reset is missing, conditional, or sits in a short-circuited operand): a left-over request ends the next queued thread after one instruction, so a whole branch is never explored",
+            sample={"rule": "R08.3", "resets_found": len(resets), "unconditional_with_retire": ok_reset},
+        )
+
     # ---------------------------------------------------------------- R08.5
     ji = None
     for fn, whos in movers_in_opcodes.items():
@@ -389,6 +433,11 @@ def check(fx, rep, tier):
                     f"the conditional jump fails (and the VM then ends the fall-through path) for bad-target kind(s) {sorted(leaking)}: every bad target must leave the not-taken path alive",
                     sample={"rule": "R08.5", "err_exits_in_arm": n_err, "jump_kinds_reaching_them": sorted(leaking)},
                 )
+    # jump targets computed from PC: PC pushes the offset of the PC instruction itself (shared with C07 R07.2)
+    from .. import core
+    from .c07 import check_pc_value
+
+    check_pc_value(fx, core.Retag(rep, "R08.1"), "R08.1")
     rep.exhaustive = True
     return rep.finish(
         "Path/def-use audit of the jump-target validator (constant only; checked conversion of the full 256-bit value with no narrowing on the way; instruction exists; is JUMPDEST; returns that target), "
